@@ -8,6 +8,48 @@ VF_NOTE = ("Trusted: Coq kernel, extraction, harness/vf.c (page table and refere
            "The byte-level page search/bisection is abstracted to its result on the page table (validated by the tie on every run, not proved). "
            "Print Assumptions: closed under the global context.")
 CHECKS = {
+ "C01": {
+  "category": "proof",
+  "text": "PARTIAL for sample values, proof for counts and the discrete algorithms. The specification-level decoder is an executable Coq model written from the "
+          "specification and the reference code: Setup.v (headers), Codebook.v (codeword assignment, tree decode, VQ unquantisation), PacketDec.v (packet prologue, floor 1 "
+          "unwrap + line rendering, floor 0 coefficients, residue formats 0/1/2, coupling, floor x residue in exact binary32 arithmetic), Blocking.v/Overlap.v (windows, overlap, "
+          "counts). Proved for all inputs: samples per packet = bs[prev]/4+bs[this]/4; the tree walk reads back any prefix-free codeword table; look-ups consume bits and never "
+          "grow the reader; residue partition arithmetic for formats 0/1/2 stays inside the half block; floor-1 curve covers exactly n lines. Per run: random VALID set-ups over "
+          "the whole feature space (floor 0/1, residue 0/1/2, ordered/sparse/single-entry/lattice/explicit/sequence books, 1-16 submaps, coupling, up to 64 modes, all block "
+          "sizes 64..8192, up to 255 channels in the thorough tier) with random packets: header verdicts/fields, packet verdicts, bits left, the spectrum of every channel "
+          "before the inverse MDCT (bit for bit) and the sample counts must equal the extracted model; inverse MDCT + window + overlap-add and the floor-0 curve are compared "
+          "numerically (direct cosine sum in double; binary32 re-evaluation of the LSP curve) with a tolerance.",
+  "note": "Trusted: Coq kernel, extraction, ml/driver.ml, harness/pd.c (captures the spectrum by #including lib/mapping0.c with mdct_backward renamed), vlib/numeric.py (numpy). "
+          "NOT proved: numerical accuracy of the inverse MDCT, window, dB table values and floor-0 curve (numeric comparison only); that _make_words yields a prefix-free table "
+          "(tied by every run, not proved). Print Assumptions: closed.",
+  "technique": "Coq model of the specification-level decoder (exact binary32 arithmetic) + theorems on counts/tree decode/index arithmetic + exact and numeric correspondence on generated valid streams",
+ },
+ "C02": {
+  "category": "proof",
+  "text": "PARTIAL. Proved on the models for ALL inputs: reads return values of the announced width and consume exactly that many bits; every tree look-up leaves no more bits "
+          "than it found (decode work is bounded by the packet length); accepted mappings and modes only name channels/submaps/floors/residues/mappings that exist; an accepted "
+          "floor 1 has at most VIF_POSIT posts; the residue write ranges of formats 0/1/2 stay inside the vectors for every value of begin/end/grouping; granule trimming cannot "
+          "leave the decoded range (C11). Real memory safety, stack, heap and time are runtime facts: explored per run on ~500 (quick) / 20000 (thorough) malformed inputs - one "
+          "named illegal or boundary value per set-up field, bit flips, byte sets, truncation at any length, identification/comment variants, headers out of order/repeated, "
+          "random/truncated/non-audio packets, wild granule positions, trackonly/restart/clear/re-init orders - under ASan+UBSan with a 150 s watchdog, 2 GiB allocation cap "
+          "and an exit() guard, while the model must predict every verdict, spectrum and count.",
+  "note": "Trusted: Coq kernel, extraction, harness/pd.c, sanitizers. The header parser model is strict (any failed read = reject); that this coincides with the C code's "
+          "sticky reader + final framing check is validated by the tie on truncated headers, not proved. Stack use of alloca in vorbis_book_init_decode is measured only through "
+          "the default 8 MiB stack the harness runs with. Print Assumptions: closed.",
+  "technique": "Coq proof (reader, index-range and write-range lemmas) + exact correspondence on mutated streams under sanitizers with time/heap budgets",
+ },
+ "C05": {
+  "category": "proof",
+  "text": "PARTIAL. Proved: decode (encode e) = e for every prefix-free codeword table whatever follows in the packet (tree walk vs table), reads consume exactly the width "
+          "written, accepted mode tables are valid. Decided per run on real encoder output (18 channel/rate configurations incl. 255 channels, all qualities, managed modes, "
+          "control settings; silence, full scale, noise, impulses, DC, denormals, beyond +-1): the three headers are accepted by the decoder AND by the strict model parser with "
+          "identical fields, equal to the encoder's own info structure; every audio packet is accepted by both, window flags agree with the neighbouring blocks, the model's "
+          "and the decoder's bit position after the packet agree and lie within the last byte (unmanaged); managed packets are never rejected and only run out of bits when a "
+          "hard maximum is configured; every third packet's full spectrum is compared bit for bit.",
+  "note": "Trusted: Coq kernel, extraction, harness/c05enc.c + pd.c. The encoder's psychoacoustic choices are inputs; pack/unpack symmetry of the header writers is established by "
+          "the per-run field comparison, not by a pack_unpack theorem. Print Assumptions: closed.",
+  "technique": "Coq proof (codeword round trip, exact field consumption) + strict model parser/decoder run on real encoder output, exact correspondence with the decoder",
+ },
  "C18": {
   "category": "proof",
   "text": "PARTIAL. Proved (Interleave.v, generic in the step function; instantiated with the encoder, decoder, vorbisfile and bitrate models): for ALL worlds of instances with "
